@@ -1,4 +1,4 @@
-"""X04 -- FastICA (linfa-ica): parameter errors before training, predict = (X - mean) W^T, whitened recovered sources,
+"""X04 -- FastICA (linfa-ica): parameter errors before training, predict = (X - mean) W^T, whitened (covariance c*I) recovered sources,
 bit-identical results for a fixed random_state, weak separation of two-source lattice mixtures (extension of the
 specification beyond the listed properties; docs/reports/X04.md).
 
@@ -17,7 +17,7 @@ import vlib
 MODEL = {"quick": dict(NCat=3, NMix=2), "thorough": dict(NCat=5, NMix=4)}
 GEN = {"quick": dict(N2Max=4, Thin1=2, Thin2=12, ThinMix=2, MixVar=2),
        "thorough": dict(N2Max=5, Thin1=1, Thin2=4, ThinMix=1, MixVar=3)}
-INVS = ["InvErr", "InvDomain", "InvMean", "InvCell", "InvWhite", "InvSep", "InvDev"]
+INVS = ["InvErr", "InvDomain", "InvMean", "InvCell", "InvWhite", "InvSep", "InvScale", "InvEqualVar"]
 ACTIONS = ["Validate", "Center", "Unmix", "PredictRow", "Done"]
 TRACE_CONST = dict(NCat=0, NMix=0)
 
@@ -143,7 +143,6 @@ def _sep_marks(ctx):
 
 def _validate(ctx, traces):
     ok, rejected = vlib.validate_with_findings(ctx, "Trace_FastIca", traces, constants=TRACE_CONST, chunk=3000)
-    # cases explained only with a named deviation were validated against the implementation as well
     ctx.validated = len(traces) - len(rejected)
     return ok, rejected
 
@@ -201,7 +200,8 @@ def run(ctx):
     ctx.assumptions = [
         "inputs are integer matrices (exactly representable in f64); f64 only",
         "cells are compared on a 1e-6 grid: |y - (x-mean)W^T| <= (sum_b |x_b-mean_b| + 2) * 1e-6; covariance entries within 1e-4 (relative to the normaliser)",
-        "'sample covariance' is accepted with normaliser n or n-1 (not documented)",
+        "the scale of the recovered sources is not documented: covariance c*I is demanded (centred, uncorrelated, equal variances, "
+        "entries within 1e-4 relative) with SUM y y^T = d*I for one d in {n, n-1, 1}, the same d for every fit of a case",
         "separation is demanded only on product lattices of two symmetric sources with m4/m2^2 <= 2.3 mixed by a matrix with condition "
         "number < 8, with default or tighter stopping rule, as a majority of five seeds (a single random start may stop at a spurious "
         "fixed point), threshold 0.9 with 0.02 of slack",
